@@ -65,6 +65,7 @@ Qed.
 Lemma GSH_render_for body x len base : GSH body -> forall vs i, GSH (render_for_loop body x len base vs i).
 Proof.
   intros Hb; induction vs as [|v vs IH]; intros i s k W; [apply Rl_refl|]. cbn [render_for_loop].
+  destruct (base s) as [b0| | |]; cbn [of_res]; try apply Rl_refl.
   match goal with |- context [body (push_sandbox ?a s) k] =>
     specialize (Hb (push_sandbox a s) k (wfr_push_sandbox _ _)); destruct (body (push_sandbox a s) k) as [[o1 s1] k1] end.
   apply Rl_pop_sandbox in Hb. destruct o1; try exact Hb.
